@@ -17,7 +17,8 @@ CONSTANTS CloseKinds, PostOps
 
 WPcs == <<"idle", "appended", "persisted", "indexed", "emitted">>
 RPcs == <<"none", "waiting-slot", "fetching", "fetched", "joining", "joined-indexed", "persisted">>
-LPcs == <<"none", "loading-head">>
+\* (the third position: the block of the head being loaded is held by nobody, the load waits for it)
+LPcs == <<"none", "loading-head", "waiting-for-block">>
 
 VARIABLES w, r, l,        \* positions (indices into the sequences above)
           phase,          \* "running" | "closed" | "released" | "reopened"
@@ -53,5 +54,7 @@ Next == AdvanceW \/ AdvanceR \/ AdvanceL \/ (\E k \in CloseKinds : Close(k)) \/ 
 Spec == Init /\ [][Next]_vars
 
 NothingLeftRunning == phase \in {"released", "reopened"} => alive = {}
-DataSurvives == (phase = "reopened" /\ kind # "drop") => acked = 1
+\* "reopen-and-drop" (after Close of the store): the database is opened again on the same instance and the closed
+\* handle is dropped; Drop returns and removes the local data of that database
+DataSurvives == (phase = "reopened" /\ kind # "drop" /\ "reopen-and-drop" \notin posts) => acked = 1
 =============================================================================
